@@ -434,6 +434,15 @@ func (r *Reach) RetCond(idx int, want bool) DNF {
 	return acc
 }
 
+// RetCondAt is RetCond restricted to one Return instruction.
+func (r *Reach) RetCondAt(ret *ssa.Return, idx int, want bool) DNF {
+	base := r.blocks[ret.Block()]
+	if base == nil || idx >= len(ret.Results) {
+		return nil
+	}
+	return r.andCond(ret.Block(), base, ret.Results[idx], !want, 0)
+}
+
 // Returns lists the Return instructions of fn in block order.
 func Returns(fn *ssa.Function) []*ssa.Return {
 	var out []*ssa.Return
